@@ -76,7 +76,7 @@ def run_batch(binary, cases, cpu_per_case=20, wall_timeout=None, args=None, env=
             out, rc, timed_out, err = e.stdout or b"", None, True, e.stderr or b""
         begun = None
         done = set()
-        for line in out.decode("utf-8", "replace").splitlines():
+        for line in out.decode("utf-8", "replace").split("\n"):
             try:
                 d = json.loads(line)
             except (ValueError, RecursionError):
